@@ -68,6 +68,9 @@ def _cases(draw):
         s["namespaces"] = f'{pre}="http://example.org/{uniq("ns")}{g.pick(["", "", "?v=1", ";a=b=c", "#", "#v1"])}"' + (f' bb="http://b.example/{uniq("ns")}"' if P() else "")
         if P(0.7):
             s[f"attribute::{pre}:thing"] = uniq("attrval")
+        if P(0.4):
+            # an attribute of the author's namespace whose local name is one the converter sets itself (id, version, ...): both are kept
+            s[f"attribute::{pre}:{g.pick(['id', 'version', 'prefix', 'delimiter'])}"] = uniq("pattr")
     if P(0.3):
         s["attribute::plain"] = uniq("plainattr") + g.adv(max_size=2, allow_ws_ctl=False)
     if P(0.2):
